@@ -32,6 +32,7 @@ RULE += (" Also: contexts replacing the body's failure by a RuntimeError of thei
 RULE += (' Also: calls made from inside an except block of the caller.')
 RULE += (' Also: exceptions with lenient equality.')
 RULE += (' Also: call objects created up-front and started later.')
+RULE += (' Also: class-based managers whose exit answers a clean exit with a true value: the result of the call is still handed on.')
 ASSUMPTIONS = ["class-based ContextDecorator instances are shared between calls (documented default of _recreate_cm)"]
 EXHAUSTIVE_SUBSPACES = 'every scenario counted in scenarios_explored_exhaustively had ALL its interleavings executed'
 EXHAUSTIVE = {"quick": False, "thorough": False}
@@ -55,7 +56,7 @@ def cases(tier, seed, shard, nshards):
             calls = [[rng.choice(["ret", "ret", "raise"]) for _ in range(rng.randint(1, 5 if nt == 1 else 3))] for _ in range(nt)]
             susp = {"enter": rng.choice([0, 1, 2]), "body": rng.choice([0, 1, 2]), "exit": rng.choice([0, 1, 2])}
         manager = rng.choice(["generator", "generator", "class", "lease"])
-        yield {"mode": mode, "manager": manager, "suppress": rng.choice([False, False, False, True, True, "all"]), "body_kind": rng.choice(["async", "async", "eager"]),
+        yield {"mode": mode, "manager": manager, "clean_exit_truthy": rng.random() < 0.4, "suppress": rng.choice([False, False, False, True, True, "all"]), "body_kind": rng.choice(["async", "async", "eager"]),
                "direct": rng.random() < 0.25 and manager != "lease",
                "calls": calls, "susp": susp, "cancel_task": rng.randrange(nt) if rng.random() < 0.45 else None,
                "runs": DFS_LIMIT[tier] if mode == "dfs" else RANDOM_RUNS[tier], "seed": rng.randrange(1 << 30),
@@ -200,7 +201,8 @@ def execute(case, choose, cancel_at=None):
                     await Suspend(("exit", self.gid), susp["exit"])
                 if exc is not None and not suppressed(exc):
                     translate(exc)
-                return suppressed(exc)
+                # (an exit answering a CLEAN exit with a true value - "all is well" - has suppressed nothing)
+                return suppressed(exc) or (exc is None and bool(case.get("clean_exit_truthy")))
 
         deco = Lease()
     else:
@@ -225,7 +227,8 @@ def execute(case, choose, cancel_at=None):
                     await Suspend(("exit", "shared"), susp["exit"])
                 if exc is not None and not suppressed(exc):
                     translate(exc)
-                return suppressed(exc)
+                # (an exit answering a CLEAN exit with a true value - "all is well" - has suppressed nothing)
+                return suppressed(exc) or (exc is None and bool(case.get("clean_exit_truthy")))
 
         deco = Manager()
 
